@@ -35,7 +35,11 @@ MUTS = ["id-other-hex", "id-of-other-event", "id-upper", "id-mixed", "sig-nibble
         "resign-ts-bool", "resign-ts-float", "resign-ts-string", "resign-kind-bool", "resign-kind-float",
         "resign-kind-string", "resign-tag-nonstr", "resign-pubkey-upper",
         # the relay's own (public) service pubkey named as author
-        "pubkey-service", "pubkey-service-kind"]
+        "pubkey-service", "pubkey-service-kind",
+        # the id is RECOMPUTED over what is sent (so the hash is right) but the signature is not the author's: garbage, or
+        # another key's; alone, or next to a tag shape the signature library may choke on (malformed delegation tags)
+        "rehash", "rehash-sig-garbage", "rehash-victim-deleg-arity2", "rehash-victim-deleg-arity3",
+        "rehash-victim-deleg-arity5", "rehash-victim-deleg-nonstr", "rehash-victim-deleg-badhex"]
 
 
 def flip(h, pos=5):
@@ -58,7 +62,9 @@ def st_case(draw):
     prelude = draw(st.sampled_from(["none", "none", "same", "same-nosettle", "same+supersede"]))
     newer = E.make(k, kind, ev["created_at"] + 10, [t for t in tags if t[0] != "delegation"], "newer version")
     return {"backend": draw(st.sampled_from(["kv", "sql"])), "path": draw(st.sampled_from(["ws", "ws", "direct"])),
-            "event": ev, "other": other, "muts": muts, "k": k, "prelude": prelude, "newer": newer}
+            "event": ev, "other": other, "muts": muts, "k": k, "prelude": prelude, "newer": newer,
+            # the mutant travels on the connection that just had the genuine event accepted
+            "same_conn": draw(st.booleans())}
 
 
 def mutate(case):
@@ -127,6 +133,18 @@ def _mutate_one(ev, m, case):
             ev["extra"] = 1
         elif m == "missing-key":
             ev.pop("sig", None)
+        elif m.startswith("rehash"):
+            if "victim" in m:
+                victim = E.PKS[(k + 1) % 3]
+                ev["pubkey"] = victim
+                bad = {"arity2": ["delegation", victim], "arity3": ["delegation", victim, "kind=1"],
+                       "arity5": ["delegation", victim, "kind=1", "00" * 64, "x"],
+                       "nonstr": ["delegation", victim, 1, None], "badhex": ["delegation", "zz" * 32, "kind=1", "zz" * 64],
+                       }[m.rsplit("-", 1)[1]]
+                ev["tags"] = [t for t in ev["tags"] if not (isinstance(t, list) and t and t[0] == "delegation")] + [bad]
+            ev["id"] = E.compute_id(ev["pubkey"], ev["created_at"], ev["kind"], ev["tags"], ev["content"])
+            if m != "rehash":
+                ev["sig"] = ("%02x" % (len(ev["content"]) + 7)) * 64
         elif m.startswith("resign-"):
             from aionostr.event import Event
 
@@ -242,7 +260,10 @@ class Authentic(Sub):
                 before[base["id"]] = base  # will be stored legitimately
             ok = None
             if case["path"] == "ws":
-                c = rig.conn("10.0.0.1")
+                same_conn = case.get("same_conn") and pre in ("same", "same+supersede")
+                if same_conn:
+                    labels.append("same-connection-after-accepted")
+                c = c0 if same_conn else rig.conn("10.0.0.1")
                 if nosettle is not None:
                     c0.feed(["EVENT", nosettle])
                     for _ in range(4):
